@@ -1,6 +1,7 @@
 package main
 
 import (
+	"github.com/google/go-tdx-guest/abi"
 	"bytes"
 	"encoding/binary"
 	"fmt"
@@ -157,8 +158,31 @@ func valCase(r *hx.Run, q *pb.QuoteV4, o *validate.Options, onlyCrash bool, tags
 			}
 		}
 	}
+	// the same quote as the guest produces it, a byte string, through validate.RawTdxQuote: same verdict
+	if fail == "" && !onlyCrash && res != "panic" && o != nil && structOK(q) {
+		if raw, e := safeSerialise(q); e == nil {
+			if back, e2 := safeParse(raw); e2 == nil && proto.Equal(back, q) {
+				var rerr error
+				rres, _ := hx.Guard(func() string { rerr = validate.RawTdxQuote(raw, o); return "" })
+				if rres == "panic" {
+					fail = "crash in validate.RawTdxQuote on the serialised form of a quote validate.TdxQuote handles"
+				} else if (rerr == nil) != (err == nil) {
+					fail = fmt.Sprintf("validate.RawTdxQuote (%v) and validate.TdxQuote (%v) decide differently on the same quote", rerr, err)
+				}
+			}
+		}
+	}
 	line := "C08.val " + msgTokens(q) + " " + optTokens(o)
 	r.Emit(line, res, fail, fmt.Sprint(hx.Fnv1a([]byte(line))), o != nil && structOK(q), append(tags, "val:"+res)...)
+}
+
+func safeSerialise(q *pb.QuoteV4) (raw []byte, err error) {
+	defer func() {
+		if p := recover(); p != nil {
+			err = fmt.Errorf("panic: %v", p)
+		}
+	}()
+	return abi.QuoteToAbiBytes(q)
 }
 
 type byteOpt struct {
